@@ -58,12 +58,13 @@ def styleFromList( styleName, specArray, spacing, showAllLevels):
     displayLevels = 0
     listStyle = ListStyle(name=styleName)
     numFormatPattern = re.compile("([1IiAa])")
-    cssLengthPattern = re.compile("([^a-z]+)\\s*([a-z]+)?")
+    # a CSS length: a number (which may carry an exponent) and a unit in either case
+    cssLengthPattern = re.compile("([-+]?(?:[0-9]+\\.?[0-9]*|\\.[0-9]+)(?:[eE][-+]?[0-9]+)?)\\s*([a-zA-Z]+)?")
     m = cssLengthPattern.search( spacing )
     if (m != None):
         cssLengthNum = float(m.group(1))
         if (m.lastindex == 2):
-            cssLengthUnits = m.group(2)
+            cssLengthUnits = m.group(2).lower()
     i = 0
     while i < len(specArray):
         specification = specArray[i]
